@@ -2,6 +2,7 @@
    Statements restated verbatim from the proof files and closed by `exact`; nothing else is proved here. *)
 From BS Require Import Bytes Cid Proto Types Wantlist Client Client_proofs Client_proofs2 Client_proofs3 Client_proofs4 Tie_consts.
 From BS Require Import Tie_client.   (* tie lemmas: a source edit that changes what they extract breaks this file's closure *)
+From BS Require Import Tie_handler.  (* Handler.poll_iter IS the interpretation of the extracted arms of ClientConnectionHandler::poll *)
 Open Scope N_scope.
 
 Theorem C14_one_outstanding sdh ops ch p c f es :
@@ -476,3 +477,49 @@ Proof. exact (@ConnHandler_proofs2.C14_connhandler_end_to_end). Qed.
 
 Print Assumptions C14_connhandler_ready_means_delivered.
 Print Assumptions C14_connhandler_end_to_end.
+
+(* ---- C14 over the history of a NET with transmission faults (package P): every wantlist that entered a connection's wire has exactly one
+   fate or is still in flight — processed whole by the receiver and reported Ready; reported Failed with the receiver having processed it
+   whole or not at all (never a part of it); or dropped together with its connection, after which neither end tracks the other. *)
+From BS Require Import Server_lemmas Server_inv Wantlist_proofs Client_proofs Client_proofs2 Client_proofs3 Client_proofs4
+  Net Net_proofs Net_proofs2 Net_proofs3 Net_proofs4 Net_proofs5 Net_proofs6 Net_proofs7 Net_proofs9 Net_proofs10 Net_proofs24
+  Net_proofs28 Net_proofs32 Net_proofs35 Net_proofs36 Net_props
+  NetF NetF_proofs NetF_proofs2 NetF_proofs3 NetF_proofs4 NetF_proofs5 NetF_proofs6 NetF_proofs7 NetF_proofs8 NetF_proofs9 NetF_proofs10 NetF_proofs11.
+From BS Require Import NetF_props.
+From Coq Require Import ZArith Lia Permutation.
+Open Scope N_scope.
+
+Theorem C14_net_whole_or_failed :
+  forall (Sz : N) (Hh : hash_fn) (n : nat) (ops : list fop),
+  let r := frun_h Sz Hh (net_init n) ops in
+  Permutation (h_entered (snd r)) (map fate_msg (h_fates (snd r)) ++ wire_w (fst (fst r))) /\
+  (forall f : fate,
+   In f (h_fates (snd r)) ->
+   exists (pre : list fop) (o : fop) (post : list fop),
+     ops = pre ++ o :: post /\
+     (let s1 := fst (frun Sz Hh (net_init n) pre) in
+      In f (h_fates (hist_of Sz Hh s1 o)) /\ fate_spec Sz Hh s1 (fst (fstep Sz Hh s1 o)) f)).
+Proof. exact (@NetF_props.P_C14_net_whole_or_failed). Qed.
+
+Theorem C14_net_dropped_with_its_connection :
+  forall (Sz : N) (Hh : hash_fn) (n : nat) (pre : list fop) (o : fop) (m : wmsg),
+  let s := fst (frun Sz Hh (net_init n) pre) in
+  In (FtDropped m) (h_fates (hist_of Sz Hh s o)) ->
+  exists i j : N,
+    (o = FOp (NDisconnect i j) \/ o = FReconnect i j) /\
+    w_touches i j m = true /\
+    (let sD := do_disconnect Sz s i j in
+     tracks sD i j = false /\
+     tracks sD j i = false /\
+     connected sD i j = false /\ (forall m' : wmsg, In m' (wire_w sD) -> w_touches i j m' = false)).
+Proof. exact (@NetF_props.P_dropped_sound). Qed.
+
+Theorem C14_net_wire_on_established_connections :
+  forall (Sz : N) (Hh : hash_fn) (n : nat) (fops : list fop),
+  let s := fst (frun Sz Hh (net_init n) fops) in
+  linv s /\ conns_ex s /\ all_clients INVS s /\ all_clients conns_one s.
+Proof. exact (@NetF_props.P_reachableF_light). Qed.
+
+Print Assumptions C14_net_whole_or_failed.
+Print Assumptions C14_net_dropped_with_its_connection.
+Print Assumptions C14_net_wire_on_established_connections.
